@@ -90,7 +90,6 @@ func (p *Prog) UnresolvedCalls(fn *ssa.Function) []ssa.CallInstruction {
 	return out
 }
 
-
 // globalFuncs maps each module package-level variable to the module functions stored into it (or into one of its
 // fields or elements) anywhere in the module, typically by a package initialiser.
 // GlobalFuncs is globalFuncs for other packages.
